@@ -243,7 +243,8 @@ const lawsQuery = `. as $s
     gsubself: ([gsub($gre; .zz; $flags)] == [$s]),
     subself: ([sub($gre; .zz; $flags)] == [$s]),
     capture: ([capture($re; $flags)]
-        == ($ms | map([.captures[] | select(.name != null) | {key: .name, value: .string}] | from_entries))) }`
+        == ($ms | map([.captures[] | select(.name != null) | {key: .name, value: .string}] | from_entries))),
+    names: (($ms + $gs | map([.captures[].name]) | unique | length) <= 1) }`
 
 const strLawsQuery = `. as $s | explode as $e | ($e|length) as $n
 | { length: (length == $n),
